@@ -138,3 +138,110 @@ def value_wire_mismatches(obj):
         if (lc.value - w) % p:
             bad.append((lc.value, w))
     return bad
+
+
+# --------------------------------------------------------------------------------------------
+# running the same explorers against a real list-based backend (snarkjs / zkinterface family)
+
+class ListBackendAdapter:
+    """Presents pysnark.snarkjsbackend / pysnark.zkinterface.backend* (module-level lists
+    pubvals / privvals / constraints) through the recorder's inspection interface."""
+    IS_RECORDER = False
+
+    def __init__(self, mod):
+        self.mod = mod
+        self.want_sites = False
+        self.sites = []
+
+    @property
+    def p(self):
+        return self.mod.get_modulus()
+
+    @p.setter
+    def p(self, v):
+        if v != self.mod.get_modulus():
+            raise RuntimeError("cannot change the field of a real backend")
+
+    @property
+    def vars(self):
+        return [("pub", v) for v in self.mod.pubvals] + [("priv", v) for v in self.mod.privvals]
+
+    @property
+    def cons(self):
+        return [(a.lc, b.lc, c.lc) for a, b, c in self.mod.constraints]
+
+    def reset(self):
+        del self.mod.pubvals[:]
+        del self.mod.privvals[:]
+        del self.mod.constraints[:]
+
+    def _val(self, k):
+        if k == 0:
+            return 1
+        return self.mod.pubvals[k - 1] if k > 0 else self.mod.privvals[-k - 1]
+
+    def ev(self, lc, asg=None):
+        d = lc.lc if hasattr(lc, "lc") else lc
+        return sum(c * self._val(k) for k, c in d.items()) % self.p
+
+    def unsatisfied(self, start=0, asg=None):
+        bad = []
+        for i, (a, b, c) in enumerate(self.mod.constraints[start:], start):
+            if (self.ev(a) * self.ev(b) - self.ev(c)) % self.p:
+                bad.append(i)
+        return bad
+
+    def canon_lc(self, d):
+        p = self.p
+        return tuple(sorted((k, c % p) for k, c in d.items() if c % p))
+
+    def canonical_trace(self, start_var=0, start_con=0):
+        return ranked_trace(self)
+
+
+def ranked_trace(R_=None, start_con=0):
+    """Canonical trace with variables named (kind, rank within kind) so that backends that number
+    public and private variables separately can be compared with the recorder."""
+    R_ = R_ or R
+    p = R_.p
+    if getattr(R_, "IS_RECORDER", False):
+        rank, cnt = {0: ("one", 0)}, {"pub": 0, "priv": 0}
+        for i, (k, _) in enumerate(R_.vars, 1):
+            cnt[k] += 1
+            rank[i] = (k, cnt[k])
+        cons = R_.cons[start_con:]
+        name = lambda k: rank[k]
+        npub, npriv = cnt["pub"], cnt["priv"]
+    else:
+        cons = [(a.lc, b.lc, c.lc) for a, b, c in R_.mod.constraints[start_con:]]
+        name = lambda k: ("one", 0) if k == 0 else (("pub", k) if k > 0 else ("priv", -k))
+        npub, npriv = len(R_.mod.pubvals), len(R_.mod.privvals)
+    out = []
+    for tr in cons:
+        out.append(tuple(tuple(sorted((name(k), c % p) for k, c in d.items() if c % p)) for d in tr))
+    return (npub, npriv, tuple(out))
+
+
+def bind_real(modname, backend_name=None):
+    """Import a real list-based backend first (stage 1 of the selection picks it up), then pysnark."""
+    global R, rt, boolean, fixedpoint, branching, _DEF_BITLEN, _DEF_RES
+    import importlib
+    _ensure_tree_on_path()
+    os.environ.pop("PYSNARK_BACKEND", None)
+    mod = importlib.import_module(modname)
+    import pysnark.runtime as _rt
+    rt = _rt
+    if rt.backend is not mod:
+        raise RuntimeError("pre-imported %s not selected (got %s)" % (modname, rt.backend_name))
+    rt.autoprove = False
+    try:
+        rt.backend.process_snark = None
+    except Exception:
+        pass
+    import pysnark.boolean as _b
+    import pysnark.fixedpoint as _f
+    import pysnark.branching as _br
+    boolean, fixedpoint, branching = _b, _f, _br
+    _DEF_BITLEN, _DEF_RES = rt.bitlength, _f.resolution
+    R = ListBackendAdapter(mod)
+    return R
